@@ -5,14 +5,14 @@
 (*   inherits it), one straight-line program per stripe over the operations work / wait / reset0,      *)
 (*   one optional injected fault, and the parent's map_async(...).get(), which resolves only when      *)
 (*   every task has finished or failed.                                                                *)
-(* Prog, Faults and AbortOnFail are not hand written: they are EXTRACTED from the running code by      *)
+(* Prog, Faults and FailAction are not hand written : they are EXTRACTED from the running code by      *)
 (* checks/c07.py and substituted through a generated MC.tla.                                           *)
 EXTENDS Integers, Sequences, FiniteSets
 CONSTANTS S,            \* realised stripes = barrier parties = tasks
           C,            \* pool processes
           Prog,         \* sequence of ops: "work","wait","reset0" (reset by the party whose wait() returned 0),"reset"
           Faults,       \* set of <<stripe, pc>> single faults to explore; <<0, 0>> = no fault
-          AbortOnFail   \* worker wrapper calls barrier.abort() on exception
+          FailAction    \* what the worker wrapper does to the barrier on an exception: "none", "abort" or "reset"
 VARIABLES pc, st, idx, bstate, bcount, busy, nextTask, parent,
           FaultS, FaultPc   \* the fault of this behaviour: chosen in Init, never changed
 vars == <<pc, st, idx, bstate, bcount, busy, nextTask, parent, FaultS, FaultPc>>
@@ -32,17 +32,19 @@ Start(s) ==
     /\ busy' = busy + 1 /\ nextTask' = nextTask + 1
     /\ UNCHANGED <<idx, bstate, bcount, parent, FaultS, FaultPc>>
 
-\* task s ends with an exception (fault or BrokenBarrierError).  With AbortOnFail the worker wrapper first calls
-\* barrier.abort(), which is a separate lock acquisition (action Abort), before the task is reported as failed.
+\* task s ends with an exception (fault or BrokenBarrierError).  If the worker wrapper touches the barrier on failure
+\* (abort() or reset()) that is a separate lock acquisition (action Abort) before the task is reported as failed.
 FailEffect(s, bs, bc) ==
-    /\ st' = [st EXCEPT ![s] = IF AbortOnFail THEN "aborting" ELSE "failed"]
-    /\ busy' = IF AbortOnFail THEN busy ELSE busy - 1
+    /\ st' = [st EXCEPT ![s] = IF FailAction # "none" THEN "aborting" ELSE "failed"]
+    /\ busy' = IF FailAction # "none" THEN busy ELSE busy - 1
     /\ bstate' = bs
     /\ bcount' = bc
 
 Abort(s) ==
     /\ st[s] = "aborting"
-    /\ st' = [st EXCEPT ![s] = "failed"] /\ busy' = busy - 1 /\ bstate' = -2
+    /\ st' = [st EXCEPT ![s] = "failed"] /\ busy' = busy - 1
+    /\ bstate' = IF FailAction = "abort" THEN -2
+                 ELSE (IF bcount > 0 THEN (IF bstate \in {0, -2} THEN -1 ELSE bstate) ELSE 0)   \* reset()
     /\ UNCHANGED <<pc, idx, bcount, nextTask, parent, FaultS, FaultPc>>
 
 Work(s) ==
